@@ -262,3 +262,9 @@ def num_exponentiate(base, exponent):
         r = float("nan")
     exact = (abs(b) < 2 ** 53 and b == math.floor(b) and e == math.floor(e) and 0 <= e <= 60 and abs(b) <= 2 ** 20 and abs(r) < 2 ** 53) or r in (math.inf, -math.inf) or r == 0
     return r, exact
+
+
+def op_pow(a, b):
+    """13.6 ** on primitives: ToNumeric of both operands, Number::exponentiate (the values the matrix uses are small
+    integers, halves and special values: exact results)"""
+    return num_exponentiate(float(ToNumber(a)), float(ToNumber(b)))[0]
